@@ -4,7 +4,7 @@
    so these theorems are re-checked against the current text of align / slices_overlap. *)
 From Coq Require Import ZArith List Bool Permutation.
 Require Import Rig.Generated.GenAlloc Rig.Generated.GenWrapper Rig.Model.Base Rig.Model.Alloc Rig.Model.AllocWrapper
-        Rig.Spec.Alloc Rig.Proofs.Alloc Rig.Proofs.AllocWrapper.
+        Rig.Spec.Alloc Rig.Proofs.Alloc Rig.Proofs.AllocWrapper Rig.Proofs.AllocMeaning.
 Import ListNotations.
 Open Scope Z_scope.
 
@@ -70,6 +70,26 @@ Example C05_wrapper_hypotheses_satisfiable :
   = Ok [(1, [(0, (1, 2)); (1, (4, 9)); (2, (0, 3))]); (2, [(0, (2, 4)); (1, (12, 18)); (2, (8, 11))])]
   /\ aligns_positive exw_user /\ requests_nonneg exw_vres /\ NoDup (map fst exw_pl).
 Proof. exact exw_instance. Qed.
+
+(* What the specification's borrowed notions mean, without reference to the code: two ranges "overlap" (the
+   regenerated slices_overlap) exactly when some unit belongs to both, and the reservations that bind on a chip are
+   exactly the global ones and that chip's own. *)
+Theorem C05_overlap_meaning :
+  forall a b : slice,
+    slices_overlap a b = true <-> exists x, fst a <= x < snd a /\ fst b <= x < snd b.
+Proof. exact overlap_meaning. Qed.
+
+Theorem C05_reservations_meaning :
+  forall r xy s cs,
+    In s (reservations r xy cs) <-> In (CReserve r s None) cs \/ In (CReserve r s (Some xy)) cs.
+Proof. exact reservations_meaning. Qed.
+
+(* zero-size requests next to a reservation, with the pointer at the end of the free part: empty ranges *)
+Example C05_zero_size_instance :
+  allocate [(1, [(0, 4)]); (2, [(0, 0)]); (3, [(0, 0)])] exz_machine [CReserve 0 (4, 6) None]
+           [(1, (0, 0)); (2, (0, 0)); (3, (0, 0))]
+  = Ok [(1, [(0, (0, 4))]); (2, [(0, (4, 4))]); (3, [(0, (4, 4))])].
+Proof. exact exz_instance. Qed.
 
 (* Non-vacuity: a chip with interleaved reservations and alignment 4 meets the hypotheses and the
    allocator succeeds on it; a prefix+suffix reservation instance meets the completeness guard. *)
